@@ -555,6 +555,12 @@ func (st *State) storeTyped(addr V, val V, t types.Type) {
 	}
 	for i, l := range ls {
 		a := bvadd(addr.T, bvLit(uint64(l.Off), 64))
+		if vs[i].T == "" {
+			// a function value (closure, bound method): an opaque non-nil word
+			fv := st.freshConst("fnval", sortBV(l.W))
+			st.assume(not(eq(fv, bvLit(0, l.W))))
+			vs[i] = V{K: vs[i].K, T: fv, W: l.W}
+		}
 		switch l.K {
 		case KBool:
 			st.storeN(space, a, boolToBV(vs[i].T, 8), 1)
